@@ -35,9 +35,10 @@ def interval_union(*ivs):
 @st.composite
 def dims(draw, Dmax=6, Pmax=3, Dmin=1, Pmin=1):
     # weighted towards D >= 3 (where convolution terms exist); D = 1, 2 stay present
-    pool = [d for d in range(Dmin, Dmax + 1)] + [d for d in range(max(3, Dmin), Dmax + 1)] * 2
+    # (Hypothesis favours the first elements of sampled_from: the interesting sizes come first)
+    pool = [d for d in range(max(3, Dmin), Dmax + 1)] * 2 + [d for d in range(Dmin, Dmax + 1)][::-1]
     D = draw(st.sampled_from(pool))
-    P = draw(st.sampled_from([p for p in [1, 1, 2, 2, 2, 3, 4] if Pmin <= p <= Pmax]))
+    P = draw(st.sampled_from([p for p in [2, 1, 2, 3, 1, 2, 4] if Pmin <= p <= Pmax]))
     return D, P
 
 
